@@ -7,6 +7,8 @@ func init() {
 		ID:    "C18",
 		Title: "Templates are addressable by relative name; a bad file fails loading cleanly",
 		Rules: []string{
+			"R-FORMAT: every printf-like call (fmt family, and the module functions that hand a parameter on as a format: fail.New, newError, ...) gets a constant format, or the caller's own format parameter",
+			"R-NILERR: every nil result of a parse function is preceded by a recorded error (a truncated file is not loaded silently)",
 			"R-LOADREC: the loader functions of the root package do not call each other in a cycle (loading is bounded by the files and the uses in them)",
 			"R-PATHAPI: the template extension is only tested/removed as a suffix and the directory only joined, walked, normalised or relativised (no substring functions); a file is registered only under HasSuffix(path, ext) and !IsDir; names come from filepath.Rel + TrimSuffix; NewTemplate pairs every error with a nil Template; layouts are not registered; an unknown name ends in template-not-found; EvaluateFile passes the unmodified content to EvaluateString",
 			"R-ERRDROP: no error returned by the loader's callees is discarded",
@@ -16,6 +18,8 @@ func init() {
 		NotDecided:  "TODO",
 		Assumptions: trustedBase,
 		Run: func(m *Model, s *Sink) {
+			m.RunFormat(s, "R-FORMAT", m.reachableFns(m.Roots().Load, m.Roots().Render)) // no text of a template, a path or an error is used as a printf format
+			m.RunNilErr(s, "R-NILERR")                                                   // a file whose parse gives up must have recorded an error, or it is loaded as if it were complete
 			m.RunLoadRecursion(s, "R-LOADREC")
 			m.RunLoadErr(s, "R-LOADERR")
 			m.RunPathAPI(s, "R-PATHAPI")
